@@ -60,3 +60,17 @@ func (m *unExportedVarMocker) Set(value interface{}) {
 	m.defaultVarMocker.doSet(value)
 	logger.Consolefc(logger.DebugLevel, "mocker [%s] apply.", logger.Caller(5), m.String())
 }
+
+// Apply 变量取值回调函数, 只会执行一次
+// 注意: Apply 会覆盖之前设定 Set 的值
+func (m *unExportedVarMocker) Apply(callback interface{}) {
+	f := reflect.ValueOf(callback)
+	if f.Kind() != reflect.Func {
+		panic("VarMock Apply argument(callback) must be a func.")
+	}
+	ret := f.Call([]reflect.Value{})
+	if ret == nil || len(ret) != 1 {
+		panic("VarMock Apply callback's returns length must be 1.")
+	}
+	m.Set(ret[0].Interface())
+}
